@@ -14,8 +14,8 @@ import (
 
 // Name pools: pairwise disjoint and disjoint from the directive keywords (each, if, else, image, block, extends, this, index, first, last).
 var (
-	varNames   = []string{"name", "city", "qty", "code", "v1", "total_sum"}
-	hfNames    = []string{"doc_no", "rev"} // used in headers/footers only: their values may hold characters XML cannot carry
+	varNames   = []string{"name", "city", "qty", "code", "v1", "total_sum", "v10", "Name", "_id"} // v1 is a prefix of v10; Name and name differ by case only
+	hfNames    = []string{"doc_no", "rev"}                                                        // used in headers/footers only: their values may hold characters XML cannot carry
 	fieldNames = []string{"item", "price", "note", "sku"}
 	listNames  = []string{"rows", "lines", "entries"}
 	imgNames   = []string{"logo", "chart", "photo"}
@@ -29,6 +29,10 @@ var litWords = []string{"Hello", "world", " ", "a", "x1", "Total:", "42", "(z)",
 var plainWords = []string{"Hello", "world", "a", "x1", "Total:", "42", "(z)", "中文", "é", "<&>", "No. ", "-", "😀"}
 var braceWords = []string{"{", "}", "{{", "}}", "{ {", "} }", "{}"}
 var valueExtras = []string{"{", "}", "}}", "{x}", "a{b", "} {"}
+
+// substWords: characters that mean something to OTHER substitution mechanisms (regexp replacement templates, printf
+// verbs, sed, shell, backslash escapes). In a value they are ordinary text: prices, paths, percentages.
+var substWords = []string{"$1", "$0", "${x}", "${1}", "$name", "US$100", "$", "$$", "$&", "\\1", "\\0", "\\", "\\n", "%s", "%d", "%v", "%", "100%", "%%", "%!", "&1", "\\$", "a$b", "$_x", "C:\\dir\\1"}
 
 // blanks draws the white space between a directive keyword and its name: the one documented blank in about half of the
 // draws, otherwise one to three blanks/tabs (spellings the documentation does not show; see scan.go).
@@ -88,6 +92,9 @@ func pickFmt(t *rapid.T, pal []*ops.Fmt, label string) *ops.Fmt {
 // genTokens draws the text of a paragraph as tokens: literals, lone braces, name-like literals and placeholders.
 func genTokens(t *rapid.T, names []string, maxTok int, braces bool, words []string) string {
 	n := rapid.IntRange(0, maxTok).Draw(t, "ntok")
+	if maxTok > 16 {
+		n = rapid.IntRange(12, maxTok).Draw(t, "ntok-many")
+	}
 	var b strings.Builder
 	for i := 0; i < n; i++ {
 		k := rapid.IntRange(0, 10).Draw(t, "tok")
@@ -127,6 +134,9 @@ func cutRuns(t *rapid.T, text string, pal []*ops.Fmt, maxCuts int, sameFmt bool)
 	spans = append(spans, scanLiteral(rs, "{{/if}}")...)
 	cuts := map[int]bool{}
 	nc := rapid.IntRange(0, maxCuts).Draw(t, "ncuts")
+	if maxCuts > 10 {
+		nc = rapid.IntRange(10, maxCuts).Draw(t, "ncuts-many")
+	}
 	for i := 0; i < nc && len(rs) > 1; i++ {
 		if len(spans) > 0 && rapid.Bool().Draw(t, "cut-in-ph") {
 			sp := spans[rapid.IntRange(0, len(spans)-1).Draw(t, "cut-span")]
@@ -250,8 +260,12 @@ func genBodyPara(t *rapid.T, customStyle string) *Para {
 		return p
 	}
 	p := &Para{}
-	text := genTokens(t, varNames, 7, true, litWords)
-	p.Runs = cutRuns(t, text, bodyPalette, 5, false)
+	maxTok, maxCuts := 7, 5
+	if rapid.IntRange(0, 24).Draw(t, "longpara") == 11 {
+		maxTok, maxCuts = 24, 14 // past ten placeholders / ten runs in one paragraph
+	}
+	text := genTokens(t, varNames, maxTok, true, litWords)
+	p.Runs = cutRuns(t, text, bodyPalette, maxCuts, false)
 	if rapid.IntRange(0, 9).Draw(t, "list") == 0 {
 		p.List = true
 		p.Runs[0].F = nil
@@ -259,6 +273,46 @@ func genBodyPara(t *rapid.T, customStyle string) *Para {
 	p.Runs = insertNonText(t, p.Runs, []string{"br", "br", "pic", "fld"})
 	p.Sets = genSets(t, customStyle)
 	return p
+}
+
+// genGallery appends the picture paragraphs (8-14 pictures; of one format - that of a supplied placeholder image when
+// there is one - in two of three draws, otherwise of drawn formats) and, mostly, an image-placeholder paragraph after them.
+func genGallery(t *rapid.T, c *Case) {
+	n := rapid.IntRange(8, 14).Draw(t, "gallery-n")
+	one := ""
+	if rapid.IntRange(0, 2).Draw(t, "gallery-onefmt") > 0 {
+		one = rapid.SampledFrom([]string{"png", "jpeg", "gif"}).Draw(t, "gallery-fmt")
+		for _, name := range imgNames {
+			if im, ok := c.Data.Imgs[name]; ok {
+				one = im.Fmt
+				break
+			}
+		}
+	}
+	np := rapid.IntRange(1, 3).Draw(t, "gallery-paras")
+	paras := make([]*Para, np)
+	for i := range paras {
+		paras[i] = &Para{}
+		if rapid.IntRange(0, 2).Draw(t, "gallery-caption") == 0 {
+			paras[i].Runs = append(paras[i].Runs, Run{K: "t", T: rapid.SampledFrom(plainWords).Draw(t, "gallery-word")})
+		}
+	}
+	for i := 0; i < n; i++ {
+		im := gen.Image(t, "gpic")
+		im.Name = "p.png"
+		im.W, im.H = 1+im.W%9, 1+im.H%7 // small pictures: what matters here is how many there are
+		if one != "" {
+			im.Fmt = one
+		}
+		p := paras[i*np/n]
+		p.Runs = append(p.Runs, Run{K: "pic", Img: &im})
+	}
+	for _, p := range paras {
+		c.Blocks = append(c.Blocks, Block{P: p})
+	}
+	if rapid.IntRange(0, 3).Draw(t, "gallery-img") > 0 {
+		c.Blocks = append(c.Blocks, Block{P: genImagePara(t, bodyPalette, c)})
+	}
 }
 
 // genImagePara: a paragraph holding one or two image placeholders, optionally with non-blank text around them.
@@ -314,6 +368,15 @@ func genTable(t *rapid.T, c *Case, depth int, inLoopRow bool) *Table {
 		maxR, maxC = 2, 2
 	}
 	tb := &Table{Rows: rapid.IntRange(1, maxR).Draw(t, "rows"), Cols: rapid.IntRange(1, maxC).Draw(t, "cols"), LoopRow: -1}
+	if depth == 0 {
+		// now and then a table past nine columns or past ten rows
+		switch rapid.IntRange(0, 29).Draw(t, "bigtable") {
+		case 13:
+			tb.Cols, tb.Rows = rapid.IntRange(10, 12).Draw(t, "cols-many"), rapid.IntRange(1, 2).Draw(t, "rows-few")
+		case 17:
+			tb.Rows, tb.Cols = rapid.IntRange(10, 13).Draw(t, "rows-many"), rapid.IntRange(1, 2).Draw(t, "cols-few")
+		}
+	}
 	if !inLoopRow && rapid.IntRange(0, 9).Draw(t, "loop") < 5 {
 		tb.LoopRow = rapid.IntRange(0, tb.Rows-1).Draw(t, "looprow")
 		tb.List = rapid.SampledFrom(listNames).Draw(t, "list")
@@ -438,12 +501,22 @@ func genList(t *rapid.T, c *Case, list string) {
 		return
 	}
 	n := rapid.IntRange(0, 3).Draw(t, "nitems")
+	switch rapid.IntRange(0, 59).Draw(t, "many-items") {
+	case 5, 17, 29, 41, 53:
+		n = rapid.IntRange(9, 13).Draw(t, "nitems-many") // past ten rows
+	case 31:
+		n = rapid.IntRange(62, 70).Draw(t, "nitems-huge") // past 64
+	}
 	items := make([]map[string]string, 0, n)
 	for i := 0; i < n; i++ {
 		it := map[string]string{}
 		for _, f := range fieldNames {
 			if rapid.IntRange(0, 4).Draw(t, "field-present") > 0 {
-				it[f] = genValue(t, false)
+				if rapid.IntRange(0, 5).Draw(t, "field-int") == 0 {
+					it[f] = strconv.Itoa(rapid.SampledFrom([]int{0, -1, 7, 10, 100, 65536, -250}).Draw(t, "field-intval"))
+				} else {
+					it[f] = genValue(t, false)
+				}
 			}
 		}
 		items = append(items, it)
@@ -452,8 +525,18 @@ func genList(t *rapid.T, c *Case, list string) {
 }
 
 func genValue(t *rapid.T, control bool) string {
-	if rapid.IntRange(0, 7).Draw(t, "val-brace") == 0 {
+	switch rapid.IntRange(0, 9).Draw(t, "val-kind") {
+	case 0:
 		return rapid.SampledFrom(valueExtras).Draw(t, "val-b")
+	case 1, 2:
+		var b strings.Builder
+		for i, n := 0, rapid.IntRange(1, 3).Draw(t, "val-substn"); i < n; i++ {
+			if rapid.IntRange(0, 2).Draw(t, "val-substw") == 0 {
+				b.WriteString(rapid.SampledFrom(plainWords).Draw(t, "val-substword"))
+			}
+			b.WriteString(rapid.SampledFrom(substWords).Draw(t, "val-subst"))
+		}
+		return b.String()
 	}
 	classes := gen.Expressible
 	if control {
@@ -466,6 +549,24 @@ func genValue(t *rapid.T, control bool) string {
 	return s
 }
 
+// genTyped draws a value of another Go type than string/int: int64, float64 (exact short decimals: both the shortest and
+// the %v rendering give the same text), bool; zero and negative numbers included.
+func genTyped(t *rapid.T) Val {
+	switch rapid.IntRange(0, 3).Draw(t, "typed-kind") {
+	case 0:
+		return Val{S: strconv.FormatInt(int64(rapid.SampledFrom([]int{0, -1, 7, 10, 1 << 31, -(1 << 31), 9007199254740993, 1<<62 + 1}).Draw(t, "i64")), 10), K: "i64"}
+	case 1:
+		return Val{S: strconv.FormatBool(rapid.Bool().Draw(t, "bool")), K: "b"}
+	}
+	whole := rapid.SampledFrom([]int{0, 1, 2, 9, 10, 100, 1999, 65536}).Draw(t, "f-whole")
+	frac := rapid.SampledFrom([]string{"", ".5", ".25", ".75", ".125"}).Draw(t, "f-frac")
+	s := strconv.Itoa(whole) + frac
+	if (whole != 0 || frac != "") && rapid.IntRange(0, 2).Draw(t, "f-neg") == 0 {
+		s = "-" + s
+	}
+	return Val{S: s, K: "f"}
+}
+
 func genCase(t *rapid.T) Case {
 	c := Case{Data: Data{Vars: map[string]Val{}, Lists: map[string][]map[string]string{}, Imgs: map[string]gen.Img{}}}
 	for _, n := range imgNames {
@@ -475,11 +576,24 @@ func genCase(t *rapid.T) Case {
 			c.Data.Imgs[n] = im
 		}
 	}
+	c.Data.TypedItems = rapid.IntRange(0, 2).Draw(t, "typed-items") == 0
 	if rapid.IntRange(0, 2).Draw(t, "custom-style") == 0 {
 		c.CustomStyle = "VerifStyle"
 	}
 	nb := rapid.IntRange(1, kit.Scale(6, 9)).Draw(t, "nblocks")
+	if rapid.IntRange(0, 39).Draw(t, "manyblocks") == 23 {
+		nb = rapid.IntRange(10, 17).Draw(t, "nblocks-many")
+	}
+	// now and then a base document that already shows many pictures (around ten and beyond): one to three paragraphs of
+	// inline pictures standing at a drawn block position
+	galleryAt := -1
+	if rapid.IntRange(0, 15).Draw(t, "gallery") == 0 {
+		galleryAt = rapid.IntRange(0, nb-1).Draw(t, "gallery-at")
+	}
 	for i := 0; i < nb; i++ {
+		if i == galleryAt {
+			genGallery(t, &c)
+		}
 		switch k := rapid.IntRange(0, 9).Draw(t, "block"); {
 		case k <= 5:
 			c.Blocks = append(c.Blocks, Block{P: genBodyPara(t, c.CustomStyle)})
@@ -491,7 +605,7 @@ func genCase(t *rapid.T) Case {
 	}
 	// headers / footers: distinct (kind, type) combinations
 	seen := map[[2]int]bool{}
-	for i, n := 0, rapid.IntRange(0, 3).Draw(t, "nhf"); i < n; i++ {
+	for i, n := 0, rapid.SampledFrom([]int{0, 0, 1, 1, 2, 2, 3, 3, 5, 8}).Draw(t, "nhf"); i < n; i++ {
 		h := HF{Footer: rapid.Bool().Draw(t, "footer"), Type: rapid.IntRange(0, 2).Draw(t, "hftype"), PageNum: rapid.IntRange(0, 4).Draw(t, "hfpn")}
 		if h.PageNum > 2 {
 			h.PageNum = 0
@@ -527,9 +641,12 @@ func genCase(t *rapid.T) Case {
 	// data: a drawn subset of the names
 	for _, n := range varNames {
 		if rapid.IntRange(0, 9).Draw(t, "supply-"+n) < 6 {
-			if rapid.IntRange(0, 6).Draw(t, "int") == 0 {
+			switch rapid.IntRange(0, 13).Draw(t, "typed") {
+			case 0, 1:
 				c.Data.Vars[n] = Val{S: strconv.Itoa(rapid.IntRange(-5, 100000).Draw(t, "intval")), I: true}
-			} else {
+			case 2:
+				c.Data.Vars[n] = genTyped(t)
+			default:
 				c.Data.Vars[n] = Val{S: genValue(t, false)}
 			}
 		}
@@ -547,7 +664,11 @@ func genCase(t *rapid.T) Case {
 			c.Data.Conds[n] = k == 1
 		}
 	}
-	switch rapid.IntRange(0, 7).Draw(t, "entry") {
+	entry := rapid.IntRange(0, 7).Draw(t, "entry")
+	if galleryAt >= 0 && entry > 1 && rapid.Bool().Draw(t, "gallery-file") {
+		entry = rapid.IntRange(0, 1).Draw(t, "gallery-entry")
+	}
+	switch entry {
 	case 0:
 		c.Entry = 1
 	case 1:
@@ -555,6 +676,33 @@ func genCase(t *rapid.T) Case {
 		if len(c.Props) > 0 {
 			c.Entry = 2
 		}
+	}
+	if c.Entry >= 1 && rapid.IntRange(0, 2).Draw(t, "foreign") > 0 {
+		// the template file in another producer's spelling of the same package
+		f := &Foreign{}
+		switch rapid.IntRange(0, 3).Draw(t, "foreign-abs") {
+		case 0:
+			f.AbsHF = true
+		case 1:
+			f.AbsAll = true
+		case 2:
+			f.AbsHF, f.AbsPkg = rapid.Bool().Draw(t, "foreign-abshf"), true
+		}
+		f.Media1 = rapid.IntRange(0, 2).Draw(t, "foreign-media1") == 0
+		if k := rapid.IntRange(0, 5).Draw(t, "foreign-relids"); k <= 2 {
+			f.RelIDs = k
+		}
+		if f.any() {
+			c.Foreign = f
+		}
+	}
+	switch rapid.IntRange(0, 11).Draw(t, "prior") {
+	case 4, 7:
+		c.Prior = 1
+	case 9:
+		c.Prior = 2
+	case 5:
+		c.Prior = 3
 	}
 	return c
 }
